@@ -33,7 +33,7 @@ import (
 // RunCmd uses Exec underneath, so see those docs for more details.
 func RunCmd(cmd string, args ...string) func(args ...string) error {
 	return func(args2 ...string) error {
-		return Run(cmd, append(args, args2...)...)
+		return Run(cmd, joinArgs(args, args2)...)
 	}
 }
 
@@ -41,8 +41,17 @@ func RunCmd(cmd string, args ...string) func(args ...string) error {
 // command.
 func OutCmd(cmd string, args ...string) func(args ...string) (string, error) {
 	return func(args2 ...string) (string, error) {
-		return Output(cmd, append(args, args2...)...)
+		return Output(cmd, joinArgs(args, args2)...)
 	}
+}
+
+// joinArgs returns a new slice holding a followed by b.  It never writes into
+// the backing array of a, so a closure can be called repeatedly and
+// concurrently.
+func joinArgs(a, b []string) []string {
+	out := make([]string, 0, len(a)+len(b))
+	out = append(out, a...)
+	return append(out, b...)
 }
 
 // Run is like RunWith, but doesn't specify any environment variables.
@@ -110,9 +119,12 @@ func Exec(env map[string]string, stdout, stderr io.Writer, cmd string, args ...s
 		return os.Getenv(s)
 	}
 	cmd = os.Expand(cmd, expand)
+	// expand into a fresh slice, the caller's slice must not be modified
+	expanded := make([]string, len(args))
 	for i := range args {
-		args[i] = os.Expand(args[i], expand)
+		expanded[i] = os.Expand(args[i], expand)
 	}
+	args = expanded
 	ran, code, err := run(env, stdout, stderr, cmd, args...)
 	if err == nil {
 		return true, nil
